@@ -398,6 +398,12 @@ namespace GeographicLib {
       // The last condition is that M0 = -1 implies N0 = -1.
       throw GeographicErr("Bad degree and order " +
                           Utility::str(N0) + " " + Utility::str(M0));
+    // Guard against overflow in Csize and in the byte offsets for a corrupt
+    // file
+    if (N0 >= 0 && (M0 + 1.0) * (2.0 * N0 - M0 + 2) / 2 >
+        numeric_limits<int>::max() / int(sizeof(double)))
+      throw GeographicErr("Degree and order too large " +
+                          Utility::str(N0) + " " + Utility::str(M0));
     N = truncate ? min(N, N0) : N0;
     M = truncate ? min(M, M0) : M0;
     C.resize(SphericalEngine::coeff::Csize(N, M));
